@@ -119,6 +119,23 @@ func addTable(b []byte, tag string, data []byte) []byte {
 	return buf.Bytes()
 }
 
+// withScaler rewrites the container with another scaler type.
+func withScaler(b []byte, scaler uint32) []byte {
+	f, _ := sfntwalk.Walk(b)
+	if f == nil {
+		return b
+	}
+	tables := map[string][]byte{}
+	for _, t := range f.Tables {
+		tables[t.Tag] = append([]byte{}, t.Data...)
+	}
+	buf := &bytes.Buffer{}
+	if _, err := header.Write(buf, scaler, tables); err != nil {
+		return b
+	}
+	return buf.Bytes()
+}
+
 func glyphID(i int) glyph.ID { return glyph.ID(i) }
 
 func cmapFormat4(m map[uint16]glyph.ID) cmap.Format4 { return cmap.Format4(m) }
